@@ -343,7 +343,11 @@ func genEvents(c *reg.Ctx, p profile, cfg config, n int) []event {
 	for len(evs) < n {
 		switch k := c.Rand.Intn(100); {
 		case k < 40:
-			evs = append(evs, cmd(cmdNames[c.Rand.Intn(len(cmdNames))]))
+			if c.Rand.Intn(6) == 0 { // vertical motions need several lines; give them their share
+				evs = append(evs, cmd([]string{"move-dot-up", "move-dot-down"}[c.Rand.Intn(2)]))
+			} else {
+				evs = append(evs, cmd(cmdNames[c.Rand.Intn(len(cmdNames))]))
+			}
 		case k < 62: // type a little text
 			evs = append(evs, typed(genText(c, p, 2))...)
 		case k < 66:
@@ -405,10 +409,16 @@ func genEvents(c *reg.Ctx, p profile, cfg config, n int) []event {
 			if c.Rand.Intn(3) == 0 {
 				evs = append(evs, key(pick(c, triggers)))
 			}
-			evs = append(evs, typed(a.A)...)
-			if c.Rand.Intn(6) == 0 { // interrupt the insertion and come back
+			ar := []rune(a.A)
+			cut := c.Rand.Intn(len(ar) + 1)
+			evs = append(evs, typed(string(ar[:cut]))...)
+			switch c.Rand.Intn(6) {
+			case 0: // interrupt the insertion and come back to the same state
 				evs = append(evs, cmd("move-dot-left"), cmd("move-dot-right"))
+			case 1: // interrupt it for good: the rest is typed somewhere else
+				evs = append(evs, cmd([]string{"move-dot-left", "move-dot-sol", "move-dot-left-word", "kill-rune-left", "transpose-rune"}[c.Rand.Intn(5)]))
 			}
+			evs = append(evs, typed(string(ar[cut:]))...)
 			evs = append(evs, key(pick(c, triggers)))
 		default: // a command position at the end of the buffer, then a command abbreviation
 			if len(cfg.Command) == 0 {
